@@ -34,6 +34,41 @@ def gen_print(rng, t, k):
     return {"t": "text", "lines": lines, "style": rng.choice(STYLES)}
 
 
+class _Reent:
+    """A renderable that prints on the console from inside its own render (re-entrant use of the
+    thread's buffer): the inner print comes out first, whole, then the outer one."""
+
+    def __init__(self, inner, outer):
+        self.inner = inner
+        self.outer = outer
+
+    def __rich_console__(self, console, options):
+        console.print(self.inner)
+        yield self.outer
+
+
+def call_output(con, op):
+    """The output operations that produce one payload each."""
+    k = op[0]
+    if k == "print":
+        con.print(build(op[1]))
+    elif k == "log":
+        con.log(op[1])
+    elif k == "rule":
+        con.rule(op[1])
+    elif k == "printm":
+        con.print(*[build(d) for d in op[1]])
+    elif k == "out":
+        con.out(op[1])
+    elif k == "reent":
+        con.print(_Reent(build(op[1]), build(op[2])))
+    else:
+        raise ValueError(k)
+
+
+ONE_PAYLOAD = ("print", "log", "rule", "printm", "out", "reent")
+
+
 class C11:
     prop = PROP
     level = "exploration"
@@ -82,7 +117,22 @@ class C11:
             return ["log", "Q%d_%dz %s" % (t, counters[t], rng.choice(WORDS))]
 
         def simple(t):
-            return pr(t) if rng.random() < 0.7 else lg(t)
+            r = rng.random()
+            if r < 0.62:
+                return pr(t)
+            if r < 0.85:
+                return lg(t)
+            if r < 0.90:
+                counters[t] += 1
+                return ["rule", "Q%d_%dz" % (t, counters[t])]
+            if r < 0.95 or kind != "A":
+                # several renderables in one print call: one payload
+                return ["printm", [pr(t)[1] for _ in range(2)]]
+            if r < 0.975:
+                counters[t] += 1
+                return ["out", "Q%d_%dz %s" % (t, counters[t], rng.choice(WORDS))]
+            # a renderable that prints from inside its own render
+            return ["reent", pr(t)[1], pr(t)[1]]
 
         def op_a(t, depth=0):
             r = rng.random()
@@ -390,10 +440,10 @@ class Multi:
 
     def _payloads(self, op):
         """One pristine byte string per print/log call, in program order."""
-        if op[0] == "print":
-            return [self.pristine.bytes(lambda c: c.print(build(op[1])))]
-        if op[0] == "log":
-            return [self.pristine.bytes(lambda c: c.log(op[1]))]
+        if op[0] in ONE_PAYLOAD:
+            if op[0] not in ("print", "log"):
+                self.probes["payload_kind_" + op[0]] = self.probes.get("payload_kind_" + op[0], 0) + 1
+            return [self.pristine.bytes(lambda c: call_output(c, op))]
         if op[0] == "block":
             out = []
             for x in op[1]:
@@ -405,10 +455,8 @@ class Multi:
 
     def _emit(self, op, t=None):
         con = self.console
-        if op[0] == "print":
-            con.print(build(op[1]))
-        elif op[0] == "log":
-            con.log(op[1])
+        if op[0] in ONE_PAYLOAD:
+            call_output(con, op)
         elif op[0] == "block":
             self.probes["blocks"] += 1
             with con:
@@ -501,7 +549,7 @@ class Multi:
     def do(self, t, op, top=False):
         o = self.oracle
         k = op[0]
-        if k in ("print", "log", "block"):
+        if k in ONE_PAYLOAD or k == "block":
             payloads = self._payloads(op)
             self.expected[t].extend(payloads)
             payload = "".join(payloads)
